@@ -11,6 +11,7 @@ import (
 	"go/ast"
 	"go/token"
 	"go/types"
+	"strings"
 )
 
 func (vc *VC) ghostArr(s *State, name string) *Term {
@@ -129,6 +130,11 @@ func (vc *VC) execGo(s *State, x *ast.GoStmt) {
 		w.assume(Forall([]*Term{z}, Eq(Select(w.heap[name], z), IntLit(0)), []*Term{Select(w.heap[name], z)}))
 	}
 	w.ghost["$inWorker"] = True
+	for k := range w.ghost {
+		if strings.HasPrefix(k, "$call.") {
+			delete(w.ghost, k) // call records are per procedure
+		}
+	}
 	savedPrefix := vc.prefix
 	vc.prefix = fmt.Sprintf("worker%d>", vc.goCount)
 	wasSync := vc.workerMode
@@ -218,12 +224,14 @@ func (vc *VC) runWorker(w *State, fr *Frame, body *ast.BlockStmt, sig *types.Sig
 		if s == nil || spec == nil {
 			return
 		}
-		env := &SpecEnv{vc: vc, st: s, old: vc.entry, vars: map[string]TV{}, pkg: vc.fn.Pkg, what: "worker clause of " + shortKey(vc.fn.Key)}
+		// old(e) in a worker clause: e at the start of the goroutine
+		env := &SpecEnv{vc: vc, st: s, old: w, vars: map[string]TV{}, pkg: vc.fn.Pkg, what: "worker clause of " + shortKey(vc.fn.Key)}
 		env.scope = vc.fn.Pkg.Types.Scope().Innermost(body.Lbrace + 1)
 		env.pos = body.Rbrace
 		for k, t := range s.ghost {
 			env.vars[k] = TV{t, vc.ghostTypes[k]}
 		}
+		env.vars["$panic"] = TV{BoolLit(kind == "panic"), types.Typ[types.Bool]}
 		for i, e := range spec.WorkerEnsures {
 			vc.obligeKeep(s, "worker", fmt.Sprintf("%s:%d", kind, i+1), "goroutine body, "+kind+" exit: "+e.Src, at.Pos(), env.evalBool(e))
 		}
